@@ -42,6 +42,9 @@ struct trie_node {
 	struct trie_node **children;
 	uint32_t num_children;
 	uint32_t refcount;
+	/* the entry has been removed but iterators positioned on it keep
+	   it in place (key and value are kept for the delete notification) */
+	int32_t removed;
 	struct trie_node *parent;
 	struct qb_list_head *notifier_head;
 };
@@ -98,7 +101,7 @@ keep_going:
 		}
 	}
 	if (n) {
-		if (all || trie_node_alive(n)) {
+		if (all || (trie_node_alive(n) && !n->removed)) {
 			return n;
 		} else {
 			c = n;
@@ -124,7 +127,7 @@ keep_going:
 	} while (n == NULL && p != root);
 
 	if (n) {
-		if (all || trie_node_alive(n)) {
+		if (all || (trie_node_alive(n) && !n->removed)) {
 			return n;
 		}
 		if (n == root) {
@@ -392,6 +395,7 @@ trie_node_destroy(struct trie *t, struct trie_node *n)
 
 	n->key = NULL;
 	n->value = NULL;
+	n->removed = QB_FALSE;
 
 	trie_node_release(t, n);
 }
@@ -526,6 +530,14 @@ trie_put(struct qb_map *map, const char *key, const void *value)
 		const char *old_value = n->value;
 		const char *old_key = n->key;
 
+		if (n->removed) {
+			/* removed, only kept for the iterators positioned
+			 * on it: this is a new entry in the same place */
+			trie_notify(n, QB_MAP_NOTIFY_DELETED,
+				    (char *)old_key, (void *)old_value, NULL);
+			n->removed = QB_FALSE;
+			old_value = NULL;
+		}
 		n->key = (char *)key;
 		n->value = (void *)value;
 
@@ -547,7 +559,8 @@ trie_rm(struct qb_map *map, const char *key)
 {
 	struct trie *t = (struct trie *)map;
 	struct trie_node *n = trie_lookup(t, key, QB_TRUE);
-	if (n && trie_node_alive(n)) {
+	if (n && trie_node_alive(n) && !n->removed) {
+		n->removed = QB_TRUE;
 		trie_node_deref(t, n);
 		t->length--;
 		return QB_TRUE;
@@ -561,7 +574,7 @@ trie_get(struct qb_map *map, const char *key)
 {
 	struct trie *t = (struct trie *)map;
 	struct trie_node *n = trie_lookup(t, key, QB_TRUE);
-	if (n) {
+	if (n && !n->removed) {
 		return n->value;
 	}
 
